@@ -34,7 +34,7 @@ def bounds_text(tier):
     return (f'(seq) all sequences of {n} operations from a pool a:ca b:cb (ca, cb symbolic >= 1, third name never added) over '
             f'the alphabet add(name; amount) / reserve(one or two entries, both key orders, incl. the unknown name) / '
             f'release-all(r) / release-partial(r, two entries in both orders) / merge(ri, rj); '
-            f'(step) {m} such operation(s) applied to every state reached by a prefix of 1-2 granted reservations with '
+            f'(step) {m} such operation(s) (1 from the two-reservation prefixes) applied to every state reached by a prefix of 1-2 granted reservations with '
             f'symbolic holdings, optionally followed by a symbolic capacity reduction (also below usage); at most '
             f'{MAXRES} live reservations; all amounts symbolic ints in [-1e9, 1e9]')
 
@@ -91,19 +91,20 @@ def jobs(tier):
     subs = []
     for seq in _sequences(n):
         subs.append({'name': 'seq:' + _name(seq), 'shape': {'ops': seq}, 'params': _params(seq)})
-    for pre_ops, pre in _PREFIXES:
+    for pi, (pre_ops, pre) in enumerate(_PREFIXES):
         nres = sum(1 for o in pre_ops if o[0] == 'R')
-        for tail in _sequences(m, nres=nres):
+        # two-operation tails only from the single-reservation prefixes (CPU budget of the thorough tier)
+        for tail in _sequences(m if (m == 1 or pi in (0, 2)) else 1, nres=nres):
             seq = pre_ops + tail
             subs.append({'name': 'step:' + _name(pre_ops) + '|' + _name(tail), 'shape': {'ops': seq},
                          'params': _params(seq), 'pre': pre})
-    njobs = 64 if tier == 'quick' else 256
+    njobs = 64
     out = []
     for j in range(njobs):
         chunk = subs[j::njobs]
         if chunk:
             out.append({'name': f'pool-{j:03d}', 'subs': chunk, 'weights': 'fifo',
-                        'timeout': 170 if tier == 'quick' else 1500})
+                        'timeout': 170 if tier == 'quick' else 600})
     return out
 
 
